@@ -21,6 +21,9 @@ UNOPS = [('neg', operator.neg), ('pos', operator.pos), ('abs', abs), ('invert', 
          ('int', int), ('float', float), ('complex', complex)]
 SHAPES = ['Q op x', 'x op Q', 'Q op Q same unit', 'Q op Q other unit', 'Q op Q unitless both',
           'Q(unit) op Q(no unit)']
+# the same unit on an operand that did not come straight from the constructor (comparisons and + - only: cheap, and enough to
+# reach the unit check)
+LATE_SHAPES = ['Q op pickled Q', 'Q op deep-copied Q', 'Q op Q whose unit was assigned later']
 UNITS = ['kg', None, '%', u'°C']
 
 
@@ -76,6 +79,17 @@ def one(Q, name, op, a, b, shape, unit, st, is_cmp):
         x, y, units_differ = Q(a, unit), Q(b, unit), False
     elif shape == 'Q op Q unitless both':
         x, y, units_differ = Q(a, None), Q(b, None), False
+    elif shape in ('Q op pickled Q', 'Q op deep-copied Q', 'Q op Q whose unit was assigned later'):
+        import copy
+        import pickle
+        x, units_differ = Q(a, unit), False
+        if shape == 'Q op pickled Q':
+            y = pickle.loads(pickle.dumps(Q(b, unit)))
+        elif shape == 'Q op deep-copied Q':
+            y = copy.deepcopy(Q(b, unit))
+        else:
+            y = Q(b, 'tmp')
+            y.unit = None if unit is None else ''.join(list(unit))      # an equal string that is another object
     elif shape == 'Q op the same Q object':
         x = Q(a, unit)
         y, units_differ = x, False
@@ -112,6 +126,11 @@ def task(pairs, units):
             for name, op in CMPOPS:
                 for shape in SHAPES:
                     one(Q, name, op, a, b, shape, unit, st, True)
+                for shape in LATE_SHAPES:
+                    one(Q, name, op, a, b, shape, unit, st, True)
+            for name, op in BINOPS[:2]:
+                for shape in LATE_SHAPES:
+                    one(Q, name, op, a, b, shape, unit, st, False)
             if type(a) is type(b) and repr(a) == repr(b):
                 # both operands are one and the same Quantity object: still the value's own answer (nan != nan)
                 for name, op in BINOPS:
@@ -166,7 +185,7 @@ def run(ctx):
     if st.c['executions'] + sum(st.skips.values()) * len(SHAPES) < space.leaves():
         raise HarnessError('enumeration incomplete: %d < %d' % (st.c['executions'], space.leaves()))
     return {'stats': st, 'exhaustive': True,
-            'rule': 'complete product: 19 operands^2 x units x (13 arithmetic/bitwise + 6 comparison operators) x 6 operand shapes (+ one Quantity object on both sides, on the diagonal), '
+            'rule': 'complete product: 19 operands^2 x units x (13 arithmetic/bitwise + 6 comparison operators) x 6 operand shapes (+ one Quantity object on both sides, on the diagonal; + a pickled / deep-copied / unit-assigned-later operand for comparisons and + -), '
                     '+ 3-argument pow with Quantity base, + 7 unary operators/conversions; distinct = distinct '
                     '(operator, a, b, shape, unit); every case is non-trivial (it evaluates an operator on a real Quantity)',
             'coverage': {'bounds': {'operands': len(OPERANDS), 'units': units, 'binary_ops': len(BINOPS), 'cmp_ops': len(CMPOPS),
